@@ -785,9 +785,13 @@ class C18(Check):
                 except Exception:   # noqa
                     d = None
                 want = {p: k.hex() for p, k in want_keys.items()}
-                if d != want:
+                if exit_ok:
+                    if d != want:
+                        V("pubkeys-content", "json", {"json": d}, {"json": want})
+                elif isinstance(d, dict) and any(p in want and v != want[p] for p, v in d.items()):
+                    # a run that ends with an error owes no file; what it wrote must not be wrong
                     V("pubkeys-content", "json", {"json": d}, {"json": want})
-            if txt is not None and (js is not None or exit_ok):
+            if txt is not None and exit_ok:
                 self.judge_text(txt, want_keys, V, "file")
             if exit_ok and not cfg["output"]:
                 self.judge_text(r.out, want_keys, V, "stdout")
